@@ -13,6 +13,7 @@ From SV Require Import Lib.Base Gen.WireFields Model.WireBase Proofs.WireBasePro
 From SV Require Import Model.WireIgmp Proofs.WireIgmpProofs.
 From SV Require Import Model.WireIpv6Frag Proofs.WireIpv6FragProofs.
 From SV Require Import Model.WireIpv6Ext Proofs.WireIpv6ExtProofs.
+From SV Require Import Model.WireIcmpv6Hdr Proofs.WireIcmpv6HdrProofs Model.WireMld Proofs.WireMldProofs.
 
 (* ---------------- IGMPv1/v2 (src/wire/igmp.rs) ----------------
    [sum_fill] is `!checksum::data(..)` (property C08); `Repr::parse` does not verify the
@@ -123,3 +124,87 @@ Theorem C06_v6ext_reparse : forall bs r,
     exists bs', v6ext_emit_full r b = Ok bs' /\ v6ext_parse bs' = Ok r.
 Proof. exact v6ext_reparse. Qed.
 Print Assumptions C06_v6ext_reparse.
+
+(* ---------------- MLDv2 (src/wire/mld.rs) ----------------
+   MldRepr is a view of the ICMPv6 packet and is emitted only through `Icmpv6Repr::Mld(r).emit`,
+   which owns the checksum octets 2..3: [mld_icmp_emit sum_fill tx] is that composition
+   ([sum_fill] = the ICMPv6 pseudo-header checksum of property C08, [tx] = caps.icmpv6.tx());
+   `MldRepr::emit` alone ([mld_emit]) writes every other octet ([C06_mld_emit_spec]: the result is
+   determined by r and the two old checksum octets).  `MldRepr::parse` verifies no checksum;
+   `Icmpv6Repr::parse` ([mld_icmp_parse sum_ok rx]) does when rx, and demands message code 0.
+   [mld_canon] is the identity on Query / Report; the emit-only spelling ReportRecordReprs is
+   read back as the Report carrying the same record headers.
+   An address record (AddressRecordRepr) is emitted as its 20-octet header; its payload
+   (sources, auxiliary data) is not written by emit, the round trip is for header ++ payload. *)
+
+Theorem C06_mldrec_emit_no_panic : forall r b,
+  mldrec_wf r = true -> blen b = mldrec_buffer_len r -> mldrec_emit r b <> Panic.
+Proof. exact mldrec_emit_no_panic. Qed.
+Print Assumptions C06_mldrec_emit_no_panic.
+
+Theorem C06_mldrec_emit_ignores_old_bytes : forall r b1 b2,
+  mldrec_wf r = true -> blen b1 = mldrec_buffer_len r -> blen b2 = mldrec_buffer_len r ->
+  mldrec_emit r b1 = mldrec_emit r b2.
+Proof. exact mldrec_emit_ignores_old_bytes. Qed.
+Print Assumptions C06_mldrec_emit_ignores_old_bytes.
+
+Theorem C06_mldrec_emit_frame : forall r h t,
+  blen h = mldrec_buffer_len r -> mldrec_emit r (h ++ t) = omap (fun x => x ++ t) (mldrec_emit r h).
+Proof. exact mldrec_emit_frame. Qed.
+Print Assumptions C06_mldrec_emit_frame.
+
+Theorem C06_mldrec_roundtrip : forall r b,
+  mldrec_wf r = true -> blen b = mldrec_buffer_len r ->
+  exists bs, mldrec_emit r b = Ok bs /\ blen bs = mldrec_buffer_len r /\
+             mldrec_parse (bs ++ mldrec_payload r) = Ok r.
+Proof. exact mldrec_roundtrip. Qed.
+Print Assumptions C06_mldrec_roundtrip.
+
+Theorem C06_mldrec_reparse : forall bs r,
+  bytes_ok bs = true -> mldrec_check_len bs = Ok tt ->
+  mldrec_parse bs = Ok r -> ipv6_addr_is_multicast (mldrec_addr r) = true ->
+  mldrec_wf r = true /\
+  forall b, blen b = mldrec_buffer_len r ->
+    exists bs', mldrec_emit r b = Ok bs' /\ mldrec_parse (bs' ++ mldrec_payload r) = Ok r.
+Proof. exact mldrec_reparse. Qed.
+Print Assumptions C06_mldrec_reparse.
+
+Theorem C06_mld_emit_spec : forall r b,
+  mld_wf r = true -> blen b = mld_buffer_len r ->
+  mld_emit r b = Ok (mld_bytes_ck r (nth 2 b 0) (nth 3 b 0)).
+Proof. exact mld_emit_spec. Qed.
+Print Assumptions C06_mld_emit_spec.
+
+Theorem C06_mld_emit_no_panic : forall (sum_fill : list Z -> Z) tx r b,
+  mld_wf r = true -> blen b = mld_buffer_len r ->
+  mld_emit r b <> Panic /\ mld_icmp_emit sum_fill tx r b <> Panic.
+Proof. exact mld_emit_no_panic_both. Qed.
+Print Assumptions C06_mld_emit_no_panic.
+
+Theorem C06_mld_emit_ignores_old_bytes : forall (sum_fill : list Z -> Z) tx r b1 b2,
+  mld_wf r = true -> blen b1 = mld_buffer_len r -> blen b2 = mld_buffer_len r ->
+  mld_icmp_emit sum_fill tx r b1 = mld_icmp_emit sum_fill tx r b2.
+Proof. exact mld_icmp_emit_ignores_old_bytes. Qed.
+Print Assumptions C06_mld_emit_ignores_old_bytes.
+
+Theorem C06_mld_roundtrip : forall (sum_fill : list Z -> Z) tx r b,
+  mld_wf r = true -> blen b = mld_buffer_len r ->
+  exists bs, mld_icmp_emit sum_fill tx r b = Ok bs /\ blen bs = mld_buffer_len r /\
+             mld_parse bs = Ok (mld_canon r).
+Proof. exact mld_roundtrip. Qed.
+Print Assumptions C06_mld_roundtrip.
+
+Theorem C06_mld_icmp_roundtrip : forall sum_ok sum_fill tx rx r b,
+  icmp6h_cksum_link sum_ok sum_fill -> (rx = true -> tx = true) ->
+  mld_wf r = true -> blen b = mld_buffer_len r ->
+  exists bs, mld_icmp_emit sum_fill tx r b = Ok bs /\ mld_icmp_parse sum_ok rx bs = Ok (mld_canon r).
+Proof. exact mld_icmp_roundtrip. Qed.
+Print Assumptions C06_mld_icmp_roundtrip.
+
+Theorem C06_mld_reparse : forall (sum_fill : list Z -> Z) tx bs r,
+  bytes_ok bs = true -> mld_parse bs = Ok r ->
+  mld_wf r = true /\
+  forall b, blen b = mld_buffer_len r ->
+    exists bs', mld_icmp_emit sum_fill tx r b = Ok bs' /\ mld_parse bs' = Ok r.
+Proof. exact mld_reparse. Qed.
+Print Assumptions C06_mld_reparse.
